@@ -28,6 +28,10 @@ checks = {
   "Opens every file of the bundled reference corpus with the library reader, dumps everything it offers, and compares what was returned without error with (1) the h5dump DDL files shipped with the corpus (members incl. links, kinds, shapes, datatypes, values, strings, compound members, attributes) and (2) the independent decoder for every numeric dataset. The corpus is enumerated completely.",
   "h5dump float output is compared at its printed precision; reader errors are accepted answers; a missing member is judged only under a parent the reader listed.",
   TECH + ": differential oracle (reference tool output + independent decoder) over reader executions on the whole corpus"),
+ "C07": ("fault_enumeration",
+  "Enumerates single-field corruptions (every structural field an independent decoder maps in a seed file x a boundary value set incl. self references) over the bundled corpus up to 256 KiB and 24 library-written files, plus seeded random mutations (bit flips, byte sets, splices, truncation, random bodies, zeroed/duplicated ranges); every input is opened and read completely through the public reader (all read APIs incl. selections and the chunk iterator) in processes under a 4 GiB address-space limit and a per-input CPU budget. Observed: recovered panics, process deaths (out of memory, stack overflow, fatal errors) classified from the runtime report, CPU overruns with goroutine dump, cumulative allocation beyond what file size and the intact seed explain (with the allocating site from the heap profile), and a canary file read after every batch.",
+  "'All byte strings' is out of reach: the claim covers the listed mutation classes on the listed seeds; quick tier samples 200 field/value pairs per seed file.",
+  TECH + ": fault enumeration over real reader executions under rlimits, crash classification by an external driver"),
  "C08": ("exploration",
   "Runs every ordering of the writer's filters over payloads from 0 B to 1 MiB: Apply/Remove identity, pipeline-message encode/parse identity, the reader's decoder on the writer's bytes, single-byte corruption of Fletcher-32 protected chunks on both decoders, plus filtered datasets end to end through the public API.",
   "Fletcher-32 blind spot (0x0000 vs 0xFFFF words) excluded; Apply errors accepted only for shuffle length mismatches.",
